@@ -11,7 +11,7 @@ import (
 // C06 — data written by every older compatible version loads and answers
 // correctly.
 
-var legacyKinds = []string{"i32", "i32", "i64", "u16", "i8", "bytesN", "structLE"}
+var legacyKinds = []string{"i32", "i32", "i64", "u16", "i8", "bytesN", "structLE", "defI64"}
 
 type legacyVariant struct {
 	Name  string
@@ -188,6 +188,9 @@ func runC06(ctx *Ctx, idx int) {
 	keys := ks.Keys
 	n := len(keys)
 	kind := legacyKinds[r.Intn(len(legacyKinds))]
+	if idx%5 == 3 {
+		kind = "none" // key-only index: only the 0.5.10/0.5.11 layouts can carry it
+	}
 	style := 0
 	if r.Chance(1, 4) {
 		style = 1 + r.Intn(4)
@@ -231,6 +234,9 @@ func runC06(ctx *Ctx, idx int) {
 		var fresh *trie.SlimTrie
 		o := OptSet{D: true}
 		if lv.Three {
+			if vals.IsNone() {
+				continue
+			}
 			var ok bool
 			stream, ok = legacyStream3(keys, vals, lv.Ver)
 			if !ok {
@@ -348,7 +354,7 @@ func init() {
 		Gates: func(tier string, m *Merged) []string {
 			need := []string{"fixtures", "3sec:nodes_gt_65535", "3sec:with_step_ge256", "3sec:with_inner_and_leaf_nodes", "0510:with_halfbyte_prefix", "0510:with_aligned_prefix",
 				"0510:with_short_nodes", "0510:with_257bit_nodes", "cases:key_ends_at_inner_node", "family:directed:empty", "family:directed:single-1", "allpref:exact_and_scans",
-				"compared_with_source_trie", "keycnt_checked", "cases:with_dropped_keys"}
+				"compared_with_source_trie", "keycnt_checked", "cases:with_dropped_keys", "valkind:none"}
 			for _, lv := range legacyVariants() {
 				need = append(need, "streams:"+lv.Name)
 			}
